@@ -171,7 +171,7 @@ def kind_args(rng, kind, val, binary, same_dt=True, same_it=True):
             return "%d %d 1 %s 0 0" % (r, c, nl([0] * (r + 1)))
         return csr_args(rng, val, min_entries=1, variant=1)
     if kind == "bcsr":
-        r, c = rng.choice([1, 2, 3, 4]), rng.choice([1, 2, 3])
+        r, c = rng.choice([1, 2, 3, 4, 5, 6]), rng.choice([1, 2, 3])
         rows = gen_pattern(rng, r, c, 1)
         rp, ci = [0], []
         for cols in rows:
@@ -197,7 +197,7 @@ def kind_args(rng, kind, val, binary, same_dt=True, same_it=True):
 
 KINDS = ["dv", "dvb", "sv", "dm", "csr", "csr", "bcsr", "bm", "cscr"]
 TXT = [("dv", "mtx"), ("dv", "exp"), ("dvb", "mtx"), ("dvb", "exp"), ("sv", "mtx"), ("dm", "mtx"), ("csr", "mtx"),
-       ("csr", "mtx")]
+       ("csr", "mtx"), ("bcsr", "mtx")]
 
 
 def gen_kind(rng):
@@ -606,6 +606,9 @@ CORPUS = [
     "cp 1 a dv 0 1 0",
     "cpmiss 55 1 75 dv 1 1/1", "cpmiss 61 2 6162 dv 1 1/1 41 dv 1 2/1", "cpmiss 6162 1 61 dv 1 1/1",
     "cpmiss - 1 61 dv 1 1/1", "cpx 0 2 61 dv 1 1/1 61 dv 1 2/1 1 0", "cpx 0 3 61 dv 1 1/1 41 dv 1 2/1 61 dv 1 3/1 1 1",
+    "txt bcsr mtx 8 8 2 2 3 0 1 2 2 0 1 12 1/1 2/1 3/1 4/1 5/1 6/1 7/1 8/1 9/1 10/1 11/1 12/1",
+    "txt bcsr mtx 4 4 5 2 6 0 0 0 1 1 2 2 1 0 12 1/8 2/1 3/1 4/1 5/1 6/1 7/1 8/1 9/1 10/1 11/1 25/2",
+    "txt bcsr mtx 8 4 1 3 2 0 2 2 0 2 12 1/1 0/1 3/1 4/1 5/1 6/1 7/1 8/1 0/1 10/1 11/1 12/1",
     "dfio - -", "dfio 00 -", "dfio - ff", "dfio 0102030405060708 464541543343444600",
 ] + cpx_corpus() + width_corpus() + shape_corpus()
 
@@ -792,6 +795,16 @@ def input_entries(kind, a):
         r, c = a.nat(), a.nat()
         v = a.flst()
         return (r, c), dict(enumerate(v))
+    if kind == "bcsr":        # block height 2, block width 3: every entry of every stored block
+        r, c = a.nat(), a.nat()
+        rp, ci, v = a.lst(), a.lst(), a.flst()
+        ents = {}
+        for i in range(r):
+            for k in range(rp[i], rp[i + 1]):
+                for y in range(2):
+                    for x in range(3):
+                        ents[(2 * i + y + 1, 3 * ci[k] + x + 1)] = v[6 * k + 3 * y + x]
+        return (2 * r, 3 * c, len(v)), ents
     r, c, _ = a.nat(), a.nat(), a.nat()
     rp, ci, v = a.lst(), a.lst(), a.flst()
     ents = {}
@@ -877,8 +890,19 @@ def oracle(case, out):
             assert o.tok() == "T"
             text = unescape(o.tok())
             got = o.dump()
-            assert o.tok() == "EQ"
-            eq = o.nat()
+            if kind == "bcsr":
+                eq = 1      # write-only format: read back as the scalar CSR matrix, judged against `orig` below
+                keys = sorted(ents)
+                rp = [0] * (dims[0] + 1)
+                for (i, j) in keys:
+                    rp[i] += 1
+                for i in range(dims[0]):
+                    rp[i + 1] += rp[i]
+                orig = {"si": [dims[0] * dims[1], dims[0], dims[1], len(keys)], "sdt": [],
+                        "els": [[to_float_type(ents[k], dt) for k in keys]], "ixs": [[j - 1 for (_, j) in keys], rp]}
+            else:
+                assert o.tok() == "EQ"
+                eq = o.nat()
             # the written file has the dimensions and exactly the pattern of the container ...
             tdims, tents = text_entries(kind, mode, text)
             if kind == "dm":
